@@ -68,6 +68,7 @@ type Action struct {
 	Output    string   `json:"output,omitempty"`
 	OutClass  string   `json:"out_class,omitempty"` // harness-side classification of Output: valid|invalid|none
 	Desc      string   `json:"desc,omitempty"`      // define: description
+	DescHex   string   `json:"desc_hex,omitempty"`  // define: description given as raw bytes (hex), for texts JSON cannot carry
 	Tags      []string `json:"tags,omitempty"`
 	Schemas   string   `json:"schemas,omitempty"`
 	DeltaNs   int64    `json:"delta_ns,omitempty"` // end_block: block time advance
@@ -159,7 +160,11 @@ func (a Action) IsMsg() bool {
 func (a Action) Msg() sdk.Msg {
 	switch a.Kind {
 	case KDefine:
-		return types.NewMsgDefineService(a.Service, a.Desc, a.Tags, addr(a.Signer), "", a.Schemas)
+		desc := a.Desc
+		if a.DescHex != "" {
+			desc = string(unhx(a.DescHex))
+		}
+		return types.NewMsgDefineService(a.Service, desc, a.Tags, addr(a.Signer), "", a.Schemas)
 	case KBind:
 		return types.NewMsgBindService(a.Service, addr(a.Provider), a.depOf(), a.Pricing, a.QoS, a.Options, addr(a.Signer))
 	case KUpdateBind:
